@@ -13,13 +13,13 @@ CLAIMED = {
          "DESIGN.md 3/C10", "Real-socket scenarios run in real time; a failure there counts only if it reproduces three times in a row. TLS and pion-DTLS handshakes themselves are not exercised (the servers run on in-memory listeners)."),
  "C09": ("interruption-point search in a synctest bubble: blocking operation x peer script x interruption kind x phase, quiescence proves the call is blocked, fixed virtual allowance after the interruption; servers on in-memory listeners with Stop from several goroutines",
          "6k (quick) / 100k (thorough) generated combinations of {GET, block-wise POST, large POST, observe, observation cancel, ping, one-way write} x {silent, ACK only, unrelated traffic, j blocks then silence, stops reading, closes} x {cancel, deadline, local Close, peer close} x {before, during; queued behind the limiter / NSTART} on both in-memory transports, plus 1.5k / 40k server scenarios (tcp and dtls servers with idle, in-flight, stalled-handshake and silent peers). Leak detection on leaving the bubble decides 'close is clean'.",
-         "DESIGN.md 3/C09", "One open known finding: a stream write stalled by a non-reading peer ignores the context. Real sockets (UDP, DTLS-PSK, TCP, TLS) are covered by the real-socket slice of the thorough tier only."),
+         "DESIGN.md 3/C09", "One open known finding: a stream write stalled by a non-reading peer ignores the context. The real engine (UDP, DTLS-PSK, TCP, TLS loopback sockets, Server.Discover) runs in real time with a 5 s allowance; a failure there counts only if it reproduces three times in a row."),
  "C11": ("history search in a synctest bubble: scripted peer injects numbered messages; handlers return, block on nested requests on their own connection, or block on a gate; multiset/order oracle over the handler log",
          "8k (quick) / 200k (thorough) generated event histories on datagram and stream connections with receive queues 0/1/16, nesting to three sequential blocking requests per handler and several handlers blocked at once, concurrent application requests and close at a generated point; quiescence after each event makes 'dispatched exactly once' and 'the nested request completes' decidable.",
          "DESIGN.md 3/C11", ""),
  "C03": ("schedule/history search in a synctest bubble: concurrent callers against a scripted wire-level peer that answers in generated order and style; payload = f(request index, token) as cross-delivery oracle",
          "8k (quick) / 200k (thorough) generated scenarios on datagram and stream connections, block-wise on/off, concurrent or serialised, with token families built to collide as far as byte strings can, separate/early/delayed/duplicated responses, stray responses with prefix/extension tokens and duplicate-token requests.",
-         "DESIGN.md 3/C03", "DTLS/TLS share the connection layer with the in-memory transports; hash collisions of Token.Hash() are not constructed."),
+         "DESIGN.md 3/C03", "The real engine repeats the matching oracle over UDP, DTLS-PSK, TCP and TLS loopback sockets (real time); hash collisions of Token.Hash() are not constructed."),
  "C12": ("life-cycle monitor (verif pool hook: state machine, poison on release, verification on re-acquisition and end-of-run sweep) over generated mixed scenarios between two endpoints with 2-8 object pools; application-side snapshots",
          "4k (quick) / 150k (thorough) generated histories with faults, cancellations, slow handlers and concurrency; every acquire/release of both pools is observed, so a double release or a write after release anywhere on an executed path is detected deterministically; content stability of messages the application holds is compared after the pool was churned.",
          "DESIGN.md 3/C12", "Only paths that the generated scenarios execute are covered; pure reads after release are invisible unless they surface as changed content."),
